@@ -145,6 +145,10 @@ func (*V1) ReadIndex(path string) ([]byte, error) {
 	if err = idFile.Close(); err != nil {
 		return nil, errors.Wrapf(err, "failed to close segment index file %s", path)
 	}
+	if len(indexBuf) < 4 || len(indexBuf)%4 != 0 {
+		// Not a whole number of entries: a torn write (the index is not synced)
+		return nil, errors.Wrapf(ErrDataCorrupted, " index file has an invalid length: %d bytes", len(indexBuf))
+	}
 	return indexBuf, nil
 }
 
